@@ -21,6 +21,7 @@ import CqlVerif.Drv.Hostile
 import CqlVerif.Drv.Race
 import CqlVerif.Drv.Tls
 import CqlVerif.Drv.Late
+import CqlVerif.Drv.Cfg
 open CqlVerif.Drv
 
 def dispatch (stream op real : String) : Verdict :=
@@ -48,6 +49,7 @@ def dispatch (stream op real : String) : Verdict :=
   | "race" => RaceStream.handle op real
   | "tls" => TlsStream.handle op real
   | "late" => LateStream.handle op real
+  | "cfg" => CfgStream.handle op real
   | _ => { kind := "diff", detail := s!"unknown stream {stream}" }
 
 partial def loop (h : IO.FS.Stream) (out : IO.FS.Stream) : IO Unit := do
